@@ -303,6 +303,8 @@ class EngineBase:
             return st, None, []
         if k == "const":
             return st, sort.arg, []
+        if k == "classref":
+            return st, ClassVal(self.tree.get_class(sort.arg)), []      # the class object itself (cls of a classmethod)
         if k == "enum":
             x = V.fresh_int(name)
             return st, x, []
@@ -484,6 +486,9 @@ class EngineBase:
         o = st.obj(r)
         if o.kind == "msg":
             return self.protomodel.havoc(self, st, r, name)
+        mdl = self.reg.models.get(o.kind)
+        if mdl is not None and hasattr(mdl, "havoc"):
+            return mdl.havoc(self, st, r, name)
         if o.kind == "iter":
             return st        # position changes are declared with `advances`
         if o.kind == "list":
